@@ -64,7 +64,7 @@ def decls(tier):
 
 def optsets(tier, nfields):
     n = len(M.OPTION_SETS)
-    cls_sets = list(range(n)) if (tier == "thorough" or nfields == 1) else [0, 1, 2, 3, 4, 6, 8, 9, 10, 12, 15]
+    cls_sets = list(range(n)) if (tier == "thorough" or nfields == 1) else [0, 1, 2, 3, 4, 6, 8, 9, 10, 12, 15, 28]
     out = [(ci, None) for ci in cls_sets]
     rt = M.RUNTIME_OK if (tier == "thorough" or nfields == 1) else [2, 6, 8, 10]
     out += [(0, r) for r in rt if r != 0]
